@@ -1,4 +1,6 @@
 """C29 — hy.as-model: cycle guard pairing, wrapper coverage, idempotence precondition."""
+CANON = True
+
 import ast
 
 from .. import pyq
